@@ -205,6 +205,9 @@ def gen_case(rng, variant, stream="main"):
         for s in specs:
             if s.crit:
                 s.fk = "c%d" % s.uid
+    near = False
+    if variant == "GP" and stream == "main" and highs and rng.random() < 0.4:
+        near = inject_near_equal(rng, specs, opts)
     if stream == "f25":
         # goals sharing a key get different nominals (known finding candidate F25)
         seen = {}
@@ -212,7 +215,46 @@ def gen_case(rng, variant, stream="main"):
             if s.fk in seen and s.size == 1:
                 s.nom = [seen[s.fk] * rng.choice([10.0, 0.1])]
             seen.setdefault(s.fk, s.nom[0])
-    return dict(variant=variant, keep=keep, highs=highs, inst=inst, n=n, specs=specs, opts=opts)
+    return dict(variant=variant, keep=keep, highs=highs, inst=inst, n=n, specs=specs, opts=opts, near=near)
+
+
+def inject_near_equal(rng, specs, opts):
+    """equality folding: give a two-sided goal with scalar targets a target interval narrower than
+    equality_threshold in scaled units (but not empty: target_min == target_max is the separately
+    counted F24 class), optionally followed by a second goal on the same key in the same priority"""
+    count = {}
+    for s in specs:
+        count[s.fk] = count.get(s.fk, 0) + 1
+    cands = [s for s in specs if s.size == 1 and s.has_min and s.has_max and s.tmin[0] == "s" and s.tmax[0] == "s"
+             and count[s.fk] == 1]
+    if not cands:
+        return False
+    g = rng.choice(cands)
+    # not in the last priority: the folded entry must show up in a later priority's rows
+    prios = sorted({int(s.prio) for s in specs})
+    if len(prios) > 1 and g.prio == prios[-1]:
+        g.prio = rng.choice(prios[:-1])
+    tm = rng.choice([0.0, 0.0, 0.5, -0.25])
+    g.tmin = ("s", tm)
+    g.tmax = ("s", tm + 8e-9 * g.nom[0])
+    g.relax = 0.0
+    opts.pop("violation_relaxation", None)
+    opts.pop("violation_tolerance", None)
+    if rng.random() < 0.6:
+        h = GoalSpec(**{k: (list(v) if isinstance(v, list) else v) for k, v in g.__dict__.items()})
+        h.uid = max(s.uid for s in specs) + 1
+        h.crit = False
+        if h.rdef:
+            l, hh = S.term_range(h.comp_terms(0))
+            h.lo, h.hi, h.rdef = [l], [hh], False
+        if rng.random() < 0.5:
+            h.tmax = ("s", NAN)   # same lower target, no upper target
+        else:
+            h.tmin = ("s", NAN)   # same upper target, no lower target
+        h.w = rng.choice([1.0, 2.5])
+        specs.append(h)
+        S.fix_order(specs)
+    return True
 
 
 def make_probe_cb(groups, rng):
@@ -243,6 +285,12 @@ def stream_main(c, N, variants=("GP", "GP", "GP", "GPkeep", "SP", "SP2"), stream
         desc = dict(stream=stream, variant=variant, solver="highs" if case["highs"] else "ipopt", n=n, opts=opts, inst=inst,
                     goals=[s.describe() for s in specs])
         c.programs += 1
+        if case["near"]:
+            c.hit("main/near-equal-targets")
+        if r[0] == "raise" and case["near"] and "Ill-posed" in str(r[1]):
+            # numerics candidate F24 (a solver epsilon of -1e-9 makes lbg > ubg): counted, not judged
+            c.hit("main/near-equal-targets/ill-posed(F24-class)")
+            continue
         if r[0] == "raise":
             c.hit(stream + "/exception")
             if stream == "main":
@@ -322,6 +370,7 @@ def stream_main(c, N, variants=("GP", "GP", "GP", "GPkeep", "SP", "SP2"), stream
                             lines04.append(dict(op="rows", goal=s.wire(), n=ns, f=[[fr(x) for x in r_] for r_ in fs],
                                                 eps=[[fr(x) for x in r_] for r_ in eps]))
             cases.append(dict(desc=desc, groups=groups, extras=pr.extras, nsnap=len(pr.snaps), nb=nb, E=E, n=n,
+                              near=case["near"],
                               idx02=idx02, idx04=idx04, specs=specs))
     check_objective_rows(c, objrow_cases)
     if not cases:
@@ -355,6 +404,8 @@ def stream_main(c, N, variants=("GP", "GP", "GP", "GPkeep", "SP", "SP2"), stream
                             continue
                         model_rows.append((float(f[i]) / s.nom_at(0), unfr(iv[0]), unfr(iv[1])))
                         n_store += 1
+                        if case["near"] and iv[0] == iv[1] and iv[0] not in ("inf", "-inf"):
+                            c.hit("rows/store-entry-folded-or-point")
             c.count(("rows", k, n_store > 0))
             c.hit("rows/priority-%s" % ("first" if k == 0 else "later"))
             if n_store:
@@ -489,7 +540,8 @@ def run(c):
         "(the oracle-feasibility contract of the theorems; oracle tolerance 1e-6 + configured relaxations)",
         "goals sharing a function key have the same function and the same function_nominal (instances with "
         "different nominals = finding candidate F25 are counted separately, not judged)",
-        "no target_min == target_max steps in the main stream (numerics candidate F24: counted separately)",
+        "no target_min == target_max steps in the main stream (numerics candidate F24: counted separately); target "
+        "intervals narrower than equality_threshold (but not empty) do occur (40% of the HiGHS multi-pass runs)",
         "critical goals intersect the interval retained from earlier priorities on their key (known finding F27 otherwise)",
         "Timeseries targets are given on the problem's time grid; violation_tolerance >= 0 where set (20% of the "
         "multi-pass runs; repaired as F47)",
@@ -505,11 +557,13 @@ def run(c):
     stream_main(c, c.n(15, 250), variants=("GP",), stream="f25")
     probe_f27(c)
     c.exhaustive = False
-    c.notes.append("partial: C02_no_degradation assumes equality folding does not trigger (NoFold; folded single "
-                   "goal per key covered by updateBounds_other_within_hull), one nominal per function key, one "
-                   "store (path or point) and one ensemble member at a time; the keep_soft / single-pass theorems "
-                   "abstract a solution to the values of the priorities' objectives; solver feasibility is the "
-                   "oracle contract (hypothesis), the final result is the last solution by C10. ")
+    c.notes.append("C02_no_degradation covers equality folding (slack equality_threshold/2 in scaled units, any number "
+                   "of goals sharing a key inside a priority) and a family of independent stores (members x point/path) "
+                   "solved by one oracle call per priority; C02_no_degradation_nofold is the exact variant without "
+                   "slack.  Remaining assumptions: one nominal per function key (F25), critical goals intersect what is "
+                   "retained (F27), solver feasibility is the oracle contract (hypothesis), the keep_soft / single-pass "
+                   "theorems abstract a solution to the values of the priorities' objectives, the final result is the "
+                   "last solution by C10. ")
     c.notes.append("update_bounds enumerated over all weak orderings of its four arguments; the run streams are "
                    "samples; streams f24/f25 only count outcomes of known-finding candidates; the unbounded "
                    "claims are the theorems")
